@@ -78,6 +78,14 @@ def make_specs(seed, quick, volume=1):
             if rep % 3 == 0:
                 cells.append(("1qutrit", "povmt", bool(rep % 2)))
     specs = []
+    # cells that every run contains: fast losses x POVM tomography x on_para_eq_constraint=True (the only combination with a
+    # non-zero constant term vecB and A^T vecB != 0), 2-outcome POVM (no dependent-element metric issue, D13), plus QST / QPT
+    for j, (fam, kind, shots) in enumerate([("fse", "povmt", 10), ("fse", "povmt", 1000), ("fre", "povmt", 10),
+                                            ("fre", "povmt", 1000), ("fse", "povmt", "exact"), ("fre", "povmt", "exact"),
+                                            ("fse", "qst", 100), ("fre", "qst", 100), ("fse", "qpt", 100), ("fre", "qpt", 100)]):
+        specs.append({"seed": seed, "salt": 900 + j + 1000 * volume, "sys": "1qubit", "kind": kind, "para": True, "fam": fam,
+                      "mode": STOP_MODES[0], "nh": 1, "shots": shots, "truth": ["interior", "boundary"][j % 2],
+                      "m": 2 if kind == "povmt" else None})
     fams = ["se", "re", "fse", "fre"]
     shots_all = ["exact", 10, 100, 1000, 100000]
     for i, (sysname, kind, para) in enumerate(cells):
@@ -103,7 +111,8 @@ def setup(spec):
 
 def dep_class(spec):
     """POVM / measurement-process tomography with a dependent last element (finding D13)"""
-    return spec["kind"] + ("-dependent-element-parametrisation" if spec["kind"] in ("povmt", "qmpt") and spec["para"] else "")
+    dep = spec["para"] and (spec["kind"] == "qmpt" or (spec["kind"] == "povmt" and (spec["m"] or 0) > 2))
+    return spec["kind"] + ("-dependent-element-parametrisation" if dep else "")
 
 
 def eval_spec(spec):
@@ -180,6 +189,18 @@ def eval_spec(spec):
         if not np.array_equal(np.array(r0.estimated_var, dtype=float), xhat):
             viol(f"C11/pgdb/{kind}/history-flag-changes-estimate",
                  f"{fam} {mode}: estimate with on_iteration_history differs by {np.abs(np.array(r0.estimated_var) - xhat).max():.3e}")
+    # --- the fast loss variant and the generic one describe the same function: same run, same estimate
+    if fam in ("fse", "fre") and spec["sys"] == "1qubit" and kind != "qmpt" and res.k <= 150:
+        try:
+            rg = L.run_lme(qt, empi, {"fse": "se", "fre": "re"}[fam], "pgdb", history=False, **opt)[0]
+            dg = float(np.linalg.norm(np.array(rg.estimated_var, dtype=float) - xhat))
+            cnt("fast-vs-generic runs")
+            if dg > 1e-6:
+                viol(f"C11/pgdb/{kind}/fast-vs-generic-loss",
+                     f"{fam} {mode} shots={spec['shots']}: estimates with the fast and the generic loss differ by {dg:.3e} "
+                     f"(losses {fhat!r} vs {f(np.array(rg.estimated_var, dtype=float))!r})")
+        except Exception as e:  # noqa
+            viol(f"C11/pgdb/{kind}/raises", f"generic counterpart of {fam}: {type(e).__name__}: {e}")
     # --- optimality certificate
     tol_f = 1e-6 * scale
     comps = [("truth", to_var(qt, true))]
